@@ -115,8 +115,7 @@ theorem powerOn_sws (n : Node) : n.powerOn.sws = n.sws.map (powerOnEff n) := by
   · simp
   · split <;> simp
 theorem powerOn_folders (n : Node) : n.powerOn.folders = n.folders := by
-  unfold Node.powerOn; repeat' split
-  all_goals rfl
+  unfold Node.powerOn; (repeat' split) <;> rfl
 
 theorem bootPhase_sws (n : Node) : n.bootPhase.sws = n.sws.map (bootEff n) := by
   unfold Node.bootPhase bootEff
@@ -124,8 +123,7 @@ theorem bootPhase_sws (n : Node) : n.bootPhase.sws = n.sws.map (bootEff n) := by
   · simp
   · split <;> simp
 theorem bootPhase_folders (n : Node) : n.bootPhase.folders = n.folders := by
-  unfold Node.bootPhase; repeat' split
-  all_goals rfl
+  unfold Node.bootPhase; (repeat' split) <;> rfl
 
 theorem shutPhase_sws (n : Node) : n.shutPhase.sws = n.sws.map (shutEff n) := by
   unfold Node.shutPhase shutEff
@@ -163,8 +161,7 @@ theorem powerOff_sws (n : Node) : n.powerOff.sws = n.sws.map (fun x => if n.shut
   · simp
   · split <;> simp
 theorem powerOff_folders (n : Node) : n.powerOff.folders = n.folders := by
-  unfold Node.powerOff; repeat' split
-  all_goals rfl
+  unfold Node.powerOff; (repeat' split) <;> rfl
 
 /-- the whole-node scan fans out in this tick (`m` = state after the power phase) -/
 theorem scanPhase_sws (m : Node) : m.scanPhase.sws = m.sws.map (fun x => if m.scanCd = 1 then x.scan else x) := by
@@ -276,5 +273,268 @@ theorem apply_folders (n : Node) (op : Op) : (n.apply op).folders = n.folders.ma
     · rw [powerOff_folders]; simp
     · simp
   all_goals (first | (split <;> simp [Node.mapLiveFolder, Node.mapFolder]) | simp [Node.mapLiveFolder, Node.mapFolder])
+
+
+/-! ### folders and files -/
+
+section file
+variable (f : File)
+@[simp] theorem File.scan_name : f.scan.name = f.name := by unfold File.scan; split <;> rfl
+@[simp] theorem File.scan_actual : f.scan.actual = f.actual := by unfold File.scan; split <;> rfl
+@[simp] theorem File.scan_deleted : f.scan.deleted = f.deleted := by unfold File.scan; split <;> rfl
+theorem File.scan_visible : f.scan.visible = if f.deleted then f.visible else f.actual := by
+  unfold File.scan; split <;> rfl
+@[simp] theorem File.repair_name : f.repair.name = f.name := by unfold File.repair; (repeat' split) <;> rfl
+@[simp] theorem File.repair_visible : f.repair.visible = f.visible := by unfold File.repair; (repeat' split) <;> rfl
+@[simp] theorem File.repair_deleted : f.repair.deleted = f.deleted := by unfold File.repair; (repeat' split) <;> rfl
+@[simp] theorem File.corrupt_name : f.corrupt.name = f.name := by unfold File.corrupt; (repeat' split) <;> rfl
+@[simp] theorem File.corrupt_visible : f.corrupt.visible = f.visible := by unfold File.corrupt; (repeat' split) <;> rfl
+@[simp] theorem File.corrupt_deleted : f.corrupt.deleted = f.deleted := by unfold File.corrupt; (repeat' split) <;> rfl
+@[simp] theorem File.restore_name : f.restore.name = f.name := by unfold File.restore; (repeat' split) <;> rfl
+@[simp] theorem File.restore_visible : f.restore.visible = f.visible := by unfold File.restore; (repeat' split) <;> rfl
+@[simp] theorem File.restore_deleted : f.restore.deleted = false := by
+  unfold File.restore
+  split
+  · rfl
+  · rename_i h; split <;> simpa using h
+@[simp] theorem File.delete_name : f.delete.name = f.name := rfl
+@[simp] theorem File.delete_visible : f.delete.visible = f.visible := rfl
+@[simp] theorem File.delete_actual : f.delete.actual = f.actual := rfl
+@[simp] theorem File.delete_deleted : f.delete.deleted = true := rfl
+theorem File.handle_name (r) : (f.handle r).1.name = f.name := by cases r <;> simp [File.handle]
+theorem File.handle_visible (r) (hr : r ≠ .scan) : (f.handle r).1.visible = f.visible := by
+  cases r <;> first | exact absurd rfl hr | simp [File.handle]
+end file
+
+section folder
+variable (G : Folder)
+
+theorem Folder.instantScan_files : G.instantScan.files = if G.deleted then G.files else G.files.map File.scan := by
+  unfold Folder.instantScan; split <;> rfl
+@[simp] theorem Folder.instantScan_deleted : G.instantScan.deleted = G.deleted := by
+  unfold Folder.instantScan; split <;> rfl
+@[simp] theorem Folder.instantScan_name : G.instantScan.name = G.name := by
+  unfold Folder.instantScan; split <;> rfl
+@[simp] theorem Folder.instantScan_scanCd : G.instantScan.scanCd = G.scanCd := by
+  unfold Folder.instantScan; split <;> rfl
+@[simp] theorem Folder.instantScan_restoreCd : G.instantScan.restoreCd = G.restoreCd := by
+  unfold Folder.instantScan; split <;> rfl
+@[simp] theorem Folder.instantScan_actual : G.instantScan.actual = G.actual := by
+  unfold Folder.instantScan; split <;> rfl
+@[simp] theorem Folder.instantScan_durs :
+    G.instantScan.scanDur = G.scanDur ∧ G.instantScan.restoreDur = G.restoreDur := by
+  unfold Folder.instantScan; split <;> exact ⟨rfl, rfl⟩
+theorem Folder.instantScan_visible :
+    G.instantScan.visible = if G.deleted = false ∧ anyLiveCorrupt G.files = true then .corrupt else G.visible := by
+  unfold Folder.instantScan
+  cases hd : G.deleted <;> simp
+
+theorem Folder.scanTick_files : G.scanTick.files = if G.scanCd = 1 then G.files.map File.scan else G.files := by
+  unfold Folder.scanTick
+  split
+  · split
+    · have : G.scanCd = 1 := by omega
+      simp [this]
+    · have : ¬ G.scanCd = 1 := by omega
+      simp [this]
+  · have : ¬ G.scanCd = 1 := by omega
+    simp [this]
+theorem Folder.scanTick_scanCd : G.scanTick.scanCd = if G.scanCd ≥ 0 then G.scanCd - 1 else G.scanCd := by
+  unfold Folder.scanTick
+  split
+  · split
+    · simp only []; omega
+    · rfl
+  · rfl
+theorem Folder.scanTick_visible : G.scanTick.visible = if G.scanCd = 1 then worstLive G.files else G.visible := by
+  unfold Folder.scanTick
+  split
+  · split
+    · have : G.scanCd = 1 := by omega
+      simp [this]
+    · have : ¬ G.scanCd = 1 := by omega
+      simp [this]
+  · have : ¬ G.scanCd = 1 := by omega
+    simp [this]
+theorem Folder.scanTick_actual : G.scanTick.actual = if G.scanCd = 1 then worstLive G.files else G.actual := by
+  unfold Folder.scanTick
+  split
+  · split
+    · have : G.scanCd = 1 := by omega
+      simp [this]
+    · have : ¬ G.scanCd = 1 := by omega
+      simp [this]
+  · have : ¬ G.scanCd = 1 := by omega
+    simp [this]
+theorem Folder.scanTick_rest :
+    G.scanTick.name = G.name ∧ G.scanTick.deleted = G.deleted ∧ G.scanTick.restoreCd = G.restoreCd ∧
+    G.scanTick.scanDur = G.scanDur ∧ G.scanTick.restoreDur = G.restoreDur := by
+  unfold Folder.scanTick; repeat' split
+  all_goals exact ⟨rfl, rfl, rfl, rfl, rfl⟩
+
+theorem Folder.restoreFinish_rest :
+    G.restoreFinish.name = G.name ∧ G.restoreFinish.visible = G.visible ∧ G.restoreFinish.scanCd = G.scanCd ∧
+    G.restoreFinish.scanDur = G.scanDur ∧ G.restoreFinish.restoreDur = G.restoreDur ∧
+    G.restoreFinish.restoreCd = G.restoreCd ∧ G.restoreFinish.files = G.files := by
+  unfold Folder.restoreFinish; (repeat' split) <;> exact ⟨rfl, rfl, rfl, rfl, rfl, rfl, rfl⟩
+theorem Folder.restoreFinish_deleted : G.restoreFinish.deleted = false := by
+  unfold Folder.restoreFinish
+  split
+  · rfl
+  · rename_i h; split <;> simpa using h
+theorem Folder.restoreFinish_actual :
+    G.restoreFinish.actual =
+      if G.deleted = false ∧ (G.actual = .corrupt ∨ G.actual = .restoring) then .good else G.actual := by
+  unfold Folder.restoreFinish
+  cases hd : G.deleted
+  · simp only [Bool.false_eq_true, if_false, true_and]
+    split <;> rfl
+  · simp
+
+theorem Folder.restoreTick_files :
+    G.restoreTick.files = if G.restoreCd = 1 then G.files.map File.restore else G.files := by
+  unfold Folder.restoreTick
+  split
+  · split
+    · have : G.restoreCd = 1 := by omega
+      rw [(Folder.restoreFinish_rest _).2.2.2.2.2.2]; simp [this]
+    · have : ¬ G.restoreCd = 1 := by omega
+      simp [this]
+  · have : ¬ G.restoreCd = 1 := by omega
+    simp [this]
+theorem Folder.restoreTick_restoreCd :
+    G.restoreTick.restoreCd = if G.restoreCd ≥ 0 then G.restoreCd - 1 else G.restoreCd := by
+  unfold Folder.restoreTick
+  split
+  · split
+    · rw [(Folder.restoreFinish_rest _).2.2.2.2.2.1]; simp only []; omega
+    · rfl
+  · rfl
+theorem Folder.restoreTick_rest :
+    G.restoreTick.name = G.name ∧ G.restoreTick.visible = G.visible ∧ G.restoreTick.scanCd = G.scanCd ∧
+    G.restoreTick.scanDur = G.scanDur ∧ G.restoreTick.restoreDur = G.restoreDur := by
+  unfold Folder.restoreTick
+  split
+  · split
+    · have h := Folder.restoreFinish_rest { G with restoreCd := 0, files := G.files.map File.restore }
+      exact ⟨h.1, h.2.1, h.2.2.1, h.2.2.2.1, h.2.2.2.2.1⟩
+    · exact ⟨rfl, rfl, rfl, rfl, rfl⟩
+  · exact ⟨rfl, rfl, rfl, rfl, rfl⟩
+/-- a live folder stays live through its restore tick -/
+theorem Folder.restoreTick_deleted (h : G.deleted = false) : G.restoreTick.deleted = false := by
+  unfold Folder.restoreTick
+  split
+  · split
+    · exact Folder.restoreFinish_deleted _
+    · exact h
+  · exact h
+theorem Folder.restoreTick_actual :
+    G.restoreTick.actual =
+      if G.restoreCd = 1 ∧ G.deleted = false ∧ (G.actual = .corrupt ∨ G.actual = .restoring) then .good else G.actual := by
+  unfold Folder.restoreTick
+  split
+  · split
+    · have h1 : G.restoreCd = 1 := by omega
+      rw [Folder.restoreFinish_actual]; simp [h1]
+    · have : ¬ G.restoreCd = 1 := by omega
+      simp [this]
+  · have : ¬ G.restoreCd = 1 := by omega
+    simp [this]
+
+theorem worstLive_map_scan (fs : List File) : worstLive (fs.map File.scan) = worstLive fs := by
+  induction fs with
+  | nil => rfl
+  | cons f fs ih => simp [worstLive, ih]
+
+theorem anyLiveCorrupt_map_scan (fs : List File) : anyLiveCorrupt (fs.map File.scan) = anyLiveCorrupt fs := by
+  simp [anyLiveCorrupt, List.any_map, Function.comp_def]
+
+end folder
+
+
+/-! ### item-wise effect on files -/
+
+/-- effect of any operation on one file `f` of folder `G` -/
+def fileEff (n : Node) (op : Op) (G : Folder) : File → File :=
+  match op with
+  | .tick => fun f =>
+    if n.powerPhase.power = .on ∧ G.deleted = false then
+      (fun f2 : File => if G.restoreCd = 1 then f2.restore else f2)
+        ((fun f1 : File => if G.scanCd = 1 then f1.scan else f1) (if n.powerPhase.scanCd = 1 then f.scan else f))
+    else f
+  | .folder F r => fun f =>
+    if n.power = .on ∧ G.name = F ∧ G.deleted = false then
+      (match r with
+       | .repair => f.repair
+       | .corrupt => f.corrupt
+       | _ => f)
+    else f
+  | .folderDelete F nm | .fsDeleteFile F nm => fun f =>
+    if n.power = .on ∧ G.name = F ∧ G.deleted = false ∧ f.name = nm ∧ f.deleted = false then f.delete else f
+  | .file F nm r => fun f =>
+    if n.power = .on ∧ G.name = F ∧ G.deleted = false ∧ f.name = nm ∧ f.deleted = false then (f.handle r).1 else f
+  | .fsDeleteFolder F => fun f => if n.power = .on ∧ F ≠ "root" ∧ G.name = F ∧ G.deleted = false then f.delete else f
+  | .fsRestoreFile F nm => fun f =>
+    if n.power = .on ∧ G.name = F ∧ G.deleted = false ∧ f.name = nm then f.restore else f
+  | .fileSet F nm h => fun f => if G.name = F ∧ f.name = nm then { f with actual := h } else f
+  | _ => fun f => f
+
+theorem Folder.tick_files (G : Folder) :
+    G.tick.files = G.files.map (fun f => (fun f2 : File => if G.restoreCd = 1 then f2.restore else f2)
+      (if G.scanCd = 1 then f.scan else f)) := by
+  unfold Folder.tick
+  rw [Folder.restoreTick_files, (Folder.scanTick_rest G).2.2.1, Folder.scanTick_files]
+  by_cases h1 : G.restoreCd = 1 <;> by_cases h2 : G.scanCd = 1 <;> simp [h1, h2]
+
+theorem folderEff_files (n : Node) (op : Op) (G : Folder) :
+    (folderEff n op G).files = G.files.map (fileEff n op G) := by
+  cases op <;> simp only [folderEff, fileEff]
+  case tick =>
+    unfold folderTickEff
+    by_cases hon : n.powerPhase.power = .on
+    · by_cases hd : G.deleted = true
+      · have hd' : ¬ G.deleted = false := by simp [hd]
+        by_cases hs : n.powerPhase.scanCd = 1
+        · simp [hon, hs, hd, Folder.instantScan_files]
+        · simp [hon, hs, hd]
+      · have hd' : G.deleted = false := by simpa using hd
+        by_cases hs : n.powerPhase.scanCd = 1
+        · simp only [hon, hs, if_true, Folder.instantScan_deleted, hd', Bool.false_eq_true, if_false, true_and]
+          rw [Folder.tick_files, Folder.instantScan_files]
+          simp [hd']
+        · simp only [hon, hs, if_true, if_false, hd', Bool.false_eq_true, true_and]
+          rw [Folder.tick_files]
+    · simp [hon]
+  case folder F r =>
+    by_cases h : n.power = .on
+    · by_cases h2 : G.name = F ∧ G.deleted = false
+      · simp only [h, h2, and_self, if_true]
+        cases r <;> simp [Folder.handle, Folder.scan, Folder.repair, Folder.restore, Folder.corrupt, h2.2]
+        · split <;> rfl
+        · split <;> rfl
+      · have : ¬ (n.power = .on ∧ G.name = F ∧ G.deleted = false) := fun h3 => h2 h3.2
+        simp [h, h2, this]
+    · simp [h]
+  case folderDelete F nm =>
+    by_cases h : n.power = .on <;> by_cases hn : G.name = F <;> by_cases hd : G.deleted = false <;>
+      simp [h, hn, hd, Folder.mapLiveFile]
+  case fsDeleteFile F nm =>
+    by_cases h : n.power = .on <;> by_cases hn : G.name = F <;> by_cases hd : G.deleted = false <;>
+      simp [h, hn, hd, Folder.mapLiveFile]
+  case file F nm r =>
+    by_cases h : n.power = .on <;> by_cases hn : G.name = F <;> by_cases hd : G.deleted = false <;>
+      simp [h, hn, hd, Folder.mapLiveFile]
+  case fsDeleteFolder F =>
+    by_cases h : n.power = .on <;> by_cases hn : G.name = F <;> by_cases hd : G.deleted = false <;>
+      by_cases hr : F = "root" <;> simp [h, hn, hd, hr, Folder.delete]
+  case fsRestoreFile F nm =>
+    by_cases h : n.power = .on <;> by_cases hn : G.name = F <;> by_cases hd : G.deleted = false <;>
+      simp [h, hn, hd, Folder.mapFile, mapNamed]
+  case fsRestoreFolder F =>
+    by_cases h : n.power = .on <;> by_cases hn : G.name = F <;> simp [h, hn, Folder.restore]
+    split <;> rfl
+  case fileSet F nm hh =>
+    by_cases hn : G.name = F <;> simp [hn, Folder.mapFile, mapNamed]
+  all_goals simp
 
 end Primaite.Health
